@@ -201,6 +201,14 @@ func c12Case(env *Env, tape *sim.Tape) *CaseOut {
 		if ctMode == 4 || ctMode == 5 {
 			op.RequestURI = "/misleading" + mtExt[other]
 		}
+		switch (mask >> 15) % 8 {
+		case 5:
+			op.RespHeader = http.Header{"Content-Encoding": {"identity"}, "Vary": {"Accept-Encoding"}}
+		case 6:
+			op.RespHeader = http.Header{"Etag": {`"abc"`}, "Cache-Control": {"max-age=60"}, "X-Content-Type-Options": {"nosniff"}}
+		case 7:
+			op.CtxCancelled = true
+		}
 		if (mask>>13)%4 == 3 {
 			// extensions are not case-sensitive (INDEX.HTML is an HTML file)
 			if i := strings.IndexByte(op.RequestURI, '?'); i >= 0 {
@@ -249,6 +257,16 @@ func c12Case(env *Env, tape *sim.Tape) *CaseOut {
 		out.stat("probe_registry_with_fallback_for_untyped", 1)
 	}
 	ref := plainReference(expectMT, data, refKey)
+	if (entry == EMiddleware || entry == EMiddleErr) && (mask>>18)%8 == 7 && ref.Err == nil && !ref.Nil && len(data) > 0 {
+		// the middleware applied twice (once on the router, once on the route): the response is
+		// what two plain calls in a row produce, whether or not the minifier is idempotent
+		second := plainReference(expectMT, ref.Out, refKey+":second")
+		if second.Err == nil && !second.Nil && len(ref.Out) > 0 {
+			op.Nested = true
+			ref = second
+			out.stat("probe_middleware_applied_twice", 1)
+		}
+	}
 	m := NewRegistry(DefaultOptions())
 	if fallback {
 		addFallback(m)
